@@ -237,7 +237,7 @@ pub fn serve_one(listener: TcpListener, script: Vec<Step>) -> Record {
 }
 
 pub fn listen() -> Option<(TcpListener, u16)> {
-    let l = TcpListener::bind("127.0.0.1:0").ok()?;
+    let l = TcpListener::bind((crate::util::lo(), 0)).ok()?;
     let p = l.local_addr().ok()?.port();
     Some((l, p))
 }
